@@ -22,7 +22,6 @@ import os
 import random
 import re
 import shutil
-import stat
 import struct
 import subprocess
 import sys
